@@ -797,7 +797,11 @@ def c20(driver):
             has_queued = bool(driver.config.queue and queued_ids(pre, ver))
             has_stab = name.startswith('development/') and any(
                 b.startswith('stabilization/' + ver + '.') for b in h0)
-            archived = (not name.startswith('hotfix/')) and ver in tags(pre)
+            # the archive tag of an earlier deletion already exists: the job
+            # cannot archive the tip and refuses (also for a re-created
+            # hotfix branch, whose tag is <version>.archived_hotfix_branch)
+            archived = (ver + '.archived_hotfix_branch'
+                        if name.startswith('hotfix/') else ver) in tags(pre)
             must_refuse = has_queued or has_stab
             if ok:
                 tname = ver + '.archived_hotfix_branch' \
